@@ -70,15 +70,15 @@ func (n *c22Node) Apply(ev c22Ev) *explore.Fail {
 }
 
 func (n *c22Node) Key() string {
-	st := n.m.C.VState()
-	return fmt.Sprintf("%02x%02x%02x|%02x%x%x", st[0], st[1], st[2], n.mod.Sel, n.mod.Dirs, n.mod.Btns)
+	// every field of the real Controller, whatever it is called (not a list of known fields)
+	return fmt.Sprintf("%s|%02x%x%x", explore.DeepKey(*n.m.C, 64), n.mod.Sel, n.mod.Dirs, n.mod.Btns)
 }
 
 func init() {
 	register("C22", "model_checking", func(c *Ctx) {
 		if c.R != nil {
 			c.R.Rule = "breadth-first closure of the real Controller (via Mapper FF00 and ButtonAction) paired with the reference joypad; a state is (controller fields, model fields); every transition compares JOYP with the model; non-trivial = distinct (state,event) successor keys"
-			c.R.Assumptions = []string{"JOYP interrupt requests are not part of the statement", "key = raw controller fields (complete: the struct has only these three fields) + model fields"}
+			c.R.Assumptions = []string{"JOYP interrupt requests are not part of the statement", "key = every field of the real Controller struct, rendered by reflection (so a field added later is part of the key), + model fields"}
 		}
 		var evs []c22Ev
 		for b := 0; b < 8; b++ {
